@@ -674,6 +674,27 @@ class Models:
     def m_format(self, I, s, args, kw):
         if all(isinstance(a, (str, int)) for a in args) and not kw:
             return s.format(*args)
+        if isinstance(s, str) and not kw:
+            # "a{}b{}".format(x, y) and f"a{x}b{y}" are the same string: one structural form for both
+            import string
+
+            try:
+                fields = list(string.Formatter().parse(s))
+            except ValueError:
+                fields = None
+            if fields is not None and all(spec in ("", None) and conv is None for _, _, spec, conv in fields):
+                names = [name for _, name, _, _ in fields if name is not None]
+                auto = all(n == "" for n in names)
+                numbered = all(n.isdigit() for n in names)
+                if (auto and len(names) == len(args)) or (numbered and names and all(int(n) < len(args) for n in names)):
+                    parts, k = [], 0
+                    for lit, name, _, _ in fields:
+                        if lit:
+                            parts.append(lit)
+                        if name is not None:
+                            parts.append(args[k] if auto else args[int(name)])
+                            k += 1
+                    return self.fmt(I, parts)
         return FmtV(("format", s) + tuple(args))
 
     def seq_contains(self, I, seq, item):
